@@ -229,27 +229,40 @@ where
         }
     }
 
+    /// Take the waiters of the in-flight entry of the key.
+    ///
+    /// The leftovers of the removed entry are returned as [`InflightGarbage`] instead of being dropped here:
+    /// this function runs under the cache locks, and the caller must drop them after the locks are released.
     #[expect(clippy::type_complexity)]
     pub fn take<Q>(
         &mut self,
         hash: u64,
         key: &Q,
         id: Option<usize>,
-    ) -> Option<Vec<Notifier<Option<RawCacheEntry<E, S, I>>>>>
+    ) -> Option<(
+        Vec<Notifier<Option<RawCacheEntry<E, S, I>>>>,
+        InflightGarbage<E::Key, E::Value, E::Properties>,
+    )>
     where
         Q: Hash + Equivalent<E::Key> + ?Sized,
     {
         match self.inflights.entry(hash, |e| key.equivalent(&e.key), |e| e.hash) {
             Entry::Occupied(o) => match id {
-                Some(id) if id == o.get().inflight.id => Some(o.remove().0.inflight),
+                Some(id) if id == o.get().inflight.id => Some(o.remove().0),
                 Some(_) => None,
-                None => Some(o.remove().0.inflight),
+                None => Some(o.remove().0),
             },
             Entry::Vacant(..) => None,
         }
-        .map(|inflight| {
-            inflight.close.store(true, Ordering::Relaxed);
-            inflight.notifiers
+        .map(|entry| {
+            entry.inflight.close.store(true, Ordering::Relaxed);
+            (
+                entry.inflight.notifiers,
+                InflightGarbage {
+                    _key: entry.key,
+                    _f: entry.inflight.f,
+                },
+            )
         })
     }
 
@@ -268,10 +281,14 @@ where
                 match f.map(unerase_required_fetch_builder) {
                     Some(f) => Some(FetchOrTake::Fetch(f)),
                     None => {
-                        let inflight = o.remove().0.inflight;
-                        inflight.close.store(true, Ordering::Relaxed);
-                        let notifiers = inflight.notifiers;
-                        Some(FetchOrTake::Notifiers(notifiers))
+                        let entry = o.remove().0;
+                        entry.inflight.close.store(true, Ordering::Relaxed);
+                        let notifiers = entry.inflight.notifiers;
+                        let garbage = InflightGarbage {
+                            _key: entry.key,
+                            _f: entry.inflight.f,
+                        };
+                        Some(FetchOrTake::Notifiers(notifiers, garbage))
                     }
                 }
             }
@@ -303,5 +320,18 @@ where
     I: Indexer<Eviction = E>,
 {
     Fetch(RequiredFetchBuilder<E::Key, E::Value, E::Properties, C>),
-    Notifiers(Vec<Notifier<Option<RawCacheEntry<E, S, I>>>>),
+    Notifiers(
+        Vec<Notifier<Option<RawCacheEntry<E, S, I>>>>,
+        InflightGarbage<E::Key, E::Value, E::Properties>,
+    ),
+}
+
+/// The leftovers of a removed in-flight entry: the owned key and a fetch builder donated by a waiter.
+///
+/// Dropping them may run user code (the destructors of the key and of the captured fetch closure), which must
+/// not happen while a cache lock is held. They are handed to the caller, which drops them out of the lock
+/// critical section.
+pub struct InflightGarbage<K, V, P> {
+    _key: K,
+    _f: Option<RequiredFetchBuilderErased<K, V, P>>,
 }
